@@ -543,8 +543,8 @@ type exec struct {
 
 // extBufs: the four buffers the caller gave to NewExtendedKey and what they contained
 type extBufs struct {
-	slot               int
-	ver, key, cc, fp   []byte
+	slot                 int
+	ver, key, cc, fp     []byte
 	ver0, key0, cc0, fp0 []byte
 }
 
@@ -831,13 +831,13 @@ func runHistory(ops []opRec, withOracle bool, deep bool) runResult {
 }
 
 // shrink removes operations greedily while the same monitor still fails.
-func shrink(ops []opRec, key string) []opRec {
+func shrink(ops []opRec, key string, deep bool) []opRec {
 	cur := append([]opRec(nil), ops...)
 	for changed := true; changed; {
 		changed = false
 		for i := len(cur) - 1; i >= 0; i-- {
 			cand := append(append([]opRec(nil), cur[:i]...), cur[i+1:]...)
-			if r := runHistory(cand, false, true); r.viol != nil && r.viol.key == key {
+			if r := runHistory(cand, false, deep); r.viol != nil && r.viol.key == key {
 				cur = cand
 				changed = true
 			}
@@ -848,7 +848,7 @@ func shrink(ops []opRec, key string) []opRec {
 
 var reported = map[string]int{}
 
-func report(ops []opRec, v *violation) {
+func report(ops []opRec, v *violation, deep bool) {
 	// one (smallest) witness per key is kept by the report; shrinking is the expensive part, so only the
 	// first few failing histories of a kind are minimised
 	reported[v.key]++
@@ -856,17 +856,23 @@ func report(ops []opRec, v *violation) {
 	if reported[v.key] > 6 {
 		return
 	}
-	small := shrink(ops, v.key)
-	r := runHistory(small, false, true)
+	small := shrink(ops, v.key, deep)
+	r := runHistory(small, false, deep)
 	if r.viol == nil || r.viol.key != v.key {
-		small, r = ops, runHistory(ops, false, true)
+		small, r = ops, runHistory(ops, false, deep)
+	}
+	if r.viol == nil { // not reproducible on a re-run (state left over between histories): report what was seen
+		r.viol = v
 	}
 	var hist []string
 	for _, o := range small {
 		hist = append(hist, o.text())
 	}
-	info := map[string]interface{}{"history": hist, "ops": small,
+	info := map[string]interface{}{"history": hist, "ops": small, "shallow": !deep,
 		"observed_after_every_step": "on every live key: String, IsPrivate, Depth, ParentFingerprint, ECPubKey, Address, Child(1), Child(2^31+1) if private (these memoise the public key of private keys)"}
+	if !deep {
+		info["observed_after_every_step"] = "on every live key: String, IsPrivate, Depth, ParentFingerprint only (none of these memoises the public key, so keys without a cached public key stay that way)"
+	}
 	for k, x := range r.viol.info {
 		info[k] = x
 	}
@@ -925,8 +931,8 @@ func genCreator(r *vh.RNG) opRec {
 // genHistory generates and executes a history step by step (each choice sees the current pool).
 // Families woven in: derive/neuter then SetNet(another net) on a relative; observe (memoise) then Zero;
 // Zero of public keys; operations on zeroed keys.
-func genHistory(r *vh.RNG, steps, maxPool int, withOracle bool) ([]opRec, runResult) {
-	e := newExec(withOracle, true)
+func genHistory(r *vh.RNG, steps, maxPool int, withOracle bool, deep bool) ([]opRec, runResult) {
+	e := newExec(withOracle, deep)
 	var ops []opRec
 	lastCreated := -1
 	for len(ops) < steps {
@@ -964,6 +970,9 @@ func genHistory(r *vh.RNG, steps, maxPool int, withOracle bool) ([]opRec, runRes
 				o = opRec{Kind: "ECPrivKey", K: k}
 			case x < 88:
 				o = opRec{Kind: "Address", K: k}
+			case x < 94 && room && e.pool[k].pv != nil:
+				// a second object for a key that is already in the pool: parse its own string (possibly more than once)
+				o = opRec{Kind: "FromString", Str: e.pool[k].real.String()}
 			case room:
 				o = genCreator(r)
 			default:
@@ -982,11 +991,11 @@ func genHistory(r *vh.RNG, steps, maxPool int, withOracle bool) ([]opRec, runRes
 
 var histCount, liveObs int
 
-func runAndRecord(ops []opRec, family string, corr bool) {
-	record(ops, runHistory(ops, corr, true), family, corr)
+func runAndRecord(ops []opRec, family string, corr bool, deep bool) {
+	record(ops, runHistory(ops, corr, deep), family, corr, deep)
 }
 
-func record(ops []opRec, r runResult, family string, corr bool) {
+func record(ops []opRec, r runResult, family string, corr bool, deep bool) {
 	histCount++
 	kinds := map[string]bool{}
 	zeroThenObserve := false
@@ -1009,7 +1018,7 @@ func record(ops []opRec, r runResult, family string, corr bool) {
 	rep.Count("history/"+family, sb.String(), zeroThenObserve && len(kinds) >= 3)
 	rep.Evaluations-- // the history line is a bucket, not an extra execution
 	if r.viol != nil {
-		report(ops, r.viol)
+		report(ops, r.viol, deep)
 	}
 	rep.Extra["zero_calls"] = toInt(rep.Extra["zero_calls"]) + r.zeros
 	rep.Extra["nonzero_bytes_beyond_len_in_zeroed_backing_arrays"] = toInt(rep.Extra["nonzero_bytes_beyond_len_in_zeroed_backing_arrays"]) + r.residue
@@ -1077,19 +1086,24 @@ func main() {
 		vh.Must(err)
 		var rp struct {
 			Input struct {
-				Ops []opRec `json:"ops"`
+				Ops     []opRec `json:"ops"`
+				Shallow bool    `json:"shallow"`
 			} `json:"input"`
 		}
 		vh.Must(json.Unmarshal(raw, &rp))
-		if r := runHistory(rp.Input.Ops, false, true); r.viol != nil {
-			report(rp.Input.Ops, r.viol)
+		if r := runHistory(rp.Input.Ops, false, !rp.Input.Shallow); r.viol != nil {
+			report(rp.Input.Ops, r.viol, !rp.Input.Shallow)
 		}
 		vh.Must(rep.Write(cfg))
 		return
 	}
 
+	// every fixed history twice: with the deep observation after every step (ECPubKey / Address / Child probes, which
+	// memoise the public key of every private key) and with the shallow one (String / IsPrivate / Depth / ParentFingerprint
+	// only), so that keys WITHOUT a cached public key are neutered, zeroed, derived from as well (review round 2)
 	for _, h := range fixedHistories() {
-		runAndRecord(h, "fixed", !cfg.Search)
+		runAndRecord(h, "fixed", !cfg.Search, true)
+		runAndRecord(h, "fixed_shallow", false, false)
 	}
 	r := rng.Fork("histories")
 	nCorr := cfg.Scale(40, 120)
@@ -1104,8 +1118,13 @@ func main() {
 		if corr {
 			steps = 5 + r.Intn(8)
 		}
-		ops, res := genHistory(r, steps, maxPool, corr)
-		record(ops, res, "random", corr)
+		deep := i%3 != 2
+		fam := "random"
+		if !deep {
+			fam = "random_shallow"
+		}
+		ops, res := genHistory(r, steps, maxPool, corr, deep)
+		record(ops, res, fam, corr, deep)
 	}
 	rep.Extra["histories"] = histCount
 	rep.Cases = cases.Len()
